@@ -37,8 +37,10 @@ else:
     if not ok:
         broken.append(("Props/C01.v", out[-3000:]))
 
+ck.log("theorems checked (%d obligations)" % ck.obligations)
 # 2. harness: ground truth + serialised IR
 exe, out = ck.go_build("./cmd/hc01")
+ck.log("harness built")
 if exe is None:
     bail("harness-build", "harness does not build against /repo", out)
 work = ck.mkscratch()
@@ -69,7 +71,7 @@ for p in progs:
 
 HEADER = ("From Coq Require Import List ZArith NArith PArith Bool.\nImport ListNotations.\n"
           "Require Import Verif.Model.C01_IRSem Verif.Model.C01_Syntax Verif.Model.C01_Check Verif.Model.C01_SSA.\n"
-          "Open Scope Z_scope.\nDefinition fuel : nat := N.to_nat 400000.\n\n")   # = FUEL below
+          "Open Scope Z_scope.\nDefinition fuel : nat := N.to_nat 2000000.\n\n")   # = FUEL below
 files = {}
 batch = []
 for i, p in enumerate(okprogs):
@@ -92,7 +94,8 @@ def balanced(s, i):
                 return s[i:j + 1]
     return s[i:]
 
-FUEL = 400000
+FUEL = 2000000
+prog_max_steps = {}
 evaluations = 0
 max_steps = 0
 fuel_cases = []
@@ -133,9 +136,10 @@ for name, (text, batch) in files.items():
                 else:
                     mismatches.append((p, fm, -1, "package initialisation failed in the model: " + val[:300]))
                 continue
-            ms = re.search(r"\]\s*(\d+)%N\s*$", val) or re.search(r"\[\]\s*(\d+)%N\s*$", val)
+            ms = re.search(r"(\d+)(?:%N)?\s*$", val)
             if ms:
                 max_steps = max(max_steps, int(ms.group(1)))
+                prog_max_steps[p["Name"]] = max(prog_max_steps.get(p["Name"], 0), int(ms.group(1)))
             bad = {}
             for m in re.finditer(r"\((\d+)%N,\s*(VMismatch|VFuel|VUnsupported|VStuck)", val):
                 idx, kind = int(m.group(1)), m.group(2)
@@ -178,16 +182,22 @@ for p, fm, ci, txt in mismatches[:40]:
     key = "%s:%s:%s:%s:%s" % (p["Origin"], p["Name"] if p["Origin"] == "corpus" else p["Seed"], d["function"], ci, fm)
     ck.violation(key, "IR (%s) of %s.%s disagrees with the compiled program on input {%s}: model says %s" % (
         FORMNAME[fm], p["Name"], d["function"], d["inputs"], re.sub(r"\s+", " ", txt)[:400]), replay_obj(p, fm, ci, txt))
-# OutOfFuel: the compiled program terminated.  If the fuel exceeds 50x the longest agreeing execution of this
-# run the IR execution is reported as non-terminating; otherwise the case is discarded (and counted).
-if fuel_cases and FUEL >= 50 * max(1, max_steps):
-    for p, fm, ci, txt in fuel_cases[:40]:
+# OutOfFuel: the compiled program terminated.  If the fuel exceeds 20x the longest agreeing execution of the
+# same program (at least 1000 steps) the IR execution is reported as non-terminating; otherwise the case is
+# discarded (and counted).
+reported_div = 0
+for p, fm, ci, txt in fuel_cases:
+    ref = max(1000, prog_max_steps.get(p["Name"], 0))
+    if FUEL >= 20 * ref:
+        reported_div += 1
+        if reported_div > 40:
+            continue
         d = case_desc(p, ci)
         key = "diverges:%s:%s:%s:%s:%s" % (p["Origin"], p["Name"] if p["Origin"] == "corpus" else p["Seed"], d["function"], ci, fm)
-        ck.violation(key, "executing the IR (%s) of %s.%s on input {%s} does not terminate within %d steps (longest agreeing execution of this run: %d steps) while the compiled program terminated" % (
-            FORMNAME[fm], p["Name"], d["function"], d["inputs"], FUEL, max_steps), replay_obj(p, fm, ci, txt))
-else:
-    discards["fuel"] += len(fuel_cases)
+        ck.violation(key, "executing the IR (%s) of %s.%s on input {%s} does not terminate within %d steps (longest agreeing execution of this program: %d steps) while the compiled program terminated" % (
+            FORMNAME[fm], p["Name"], d["function"], d["inputs"], FUEL, prog_max_steps.get(p["Name"], 0)), replay_obj(p, fm, ci, txt))
+    else:
+        discards["fuel"] += 1
 for p, fm, ci, txt in stuck[:40]:
     d = case_desc(p, ci)
     key = "stuck:%s:%s:%s:%s:%s" % (p["Origin"], p["Name"] if p["Origin"] == "corpus" else p["Seed"], d["function"], ci, fm)
@@ -228,6 +238,8 @@ ck.finish({
     "fuel": FUEL, "max_steps_of_agreeing_case": max_steps,
     "discarded": disc, "discard_rate": round(disc / max(1, evaluations), 4), "discards": discards, "unsupported_codes": unsupp_codes,
     "ssa_discipline_rejected_functions": ssa_funcs_bad,
+    "cfg_compared_lifted_vs_naive": sum(p.get("CFGFuncs", 0) for p in okprogs),
+    "cfg_differs_lifted_vs_naive": sum(p.get("CFGDiff", 0) for p in okprogs),
     "instruction_kinds_static": dict(sorted(kinds.items())),
     "generator_features": dict(sorted(feats.items())),
     "traces_validated_against_impl": okcount,
